@@ -2,9 +2,10 @@
 # re-applies every saved seeded change to /repo's current tree and runs the property's quick check: every one must be caught
 cd /verif
 for d in seeded/*/; do
-  id=$(basename $d)
+  id=$(basename $d); pid=${id:0:3}
+  case $id in *obsolete*) continue;; esac
   if ! git -C /repo apply --check /verif/$d/patch.diff 2>/dev/null; then echo "$id: patch no longer applies"; continue; fi
-  out=$(tools/tryseed.sh /verif/$d/patch.diff $id 2>&1)
+  out=$(tools/tryseed.sh /verif/$d/patch.diff $pid 2>&1)
   v=$(echo "$out" | grep -c "^VIOLATION")
   echo "$id: $v violation line(s) :: $(echo "$out" | grep "obligations" | tail -1 | cut -c1-120)"
 done
